@@ -553,6 +553,13 @@ class BreakStmt:
 
 
 @dataclass
+class ContinueStmt:
+    """A ``continue`` statement; in the body of the main loop it ends the current ``loop()`` pass."""
+
+    restart_pass: bool = False
+
+
+@dataclass
 class CatchClause:
     """A ``catch`` clause attached to a :class:`TryStatement`."""
 
